@@ -432,11 +432,13 @@ theorem doStep_led (s : St) (g : Good s) (op : Op) : Led s (doStep R s op).1 := 
   | writable => simp only [doStep]; exact (dispatch_mv R s false true).led g
   | connect =>
     simp only [doStep]
-    refine Led.mv ?_ (addIo_mv _ _ _)
-    apply alloc s _ g rfl
-    intro x
-    unfold cnt pending
-    by_cases hfn : s.nextId = x <;> cases s.cfut <;> simp [List.count_append, List.count_cons, hfn] <;> omega
+    split
+    · exact (Mv.refl s).led g
+    · refine Led.mv ?_ (addIo_mv _ _ _)
+      apply alloc s _ g rfl
+      intro x
+      unfold cnt pending
+      by_cases hfn : s.nextId = x <;> cases s.cfut <;> simp [List.count_append, List.count_cons, hfn] <;> omega
   | cerr k => simp only [doStep]; exact (⟨rfl, fun _ => rfl⟩ : Mv s { s with cerr := some k }).led g
 
 /-! ### whole runs -/
